@@ -5,7 +5,7 @@ open AgVerif AgVerif.Proto AgVerif.Header AgVerif.Gen.Header
 /-
 Line protocol of the C09 model.
   adler <hex>          -> <decimal>                         zlib.adler32
-  hdr <hex>            -> ok <u32 fields in tuple order…> | err <name> <exception class>
+  hdr <hex>            -> ok <name=value of the u32 fields in tuple order…> | err <name> <exception class>
   base <hex>           -> base <length>                     remember a file
   mut <offset> <byte>  -> as `hdr` (without fields) for the remembered file with one byte replaced
   info                 -> order of the guards, as generated
@@ -16,8 +16,8 @@ def showCheck (f : List Nat) (fields : Bool) : String :=
   | .error e => s!"err {e.name} {e.exc}"
   | .ok () =>
     if fields then
-      "ok " ++ " ".intercalate (u32Fields.map fun (_, off) =>
-        match u32At f off with | some v => toString v | none => "?")
+      "ok " ++ " ".intercalate (u32Fields.map fun (name, off) =>
+        match u32At f off with | some v => s!"{name}={v}" | none => s!"{name}=?")
     else "ok"
 
 def checkName : Check → String
